@@ -68,20 +68,36 @@ def atom_coq(a):
 
 def val_json(t):
     """tensor -> exact JSON value (scalar atom, or list of atoms); a 1-d WeightedTensor with boolean weights ->
-    {"wv": [atoms of .value], "ww": [0/1 of .weight]} (value AND weight, entry by entry); anything else is described as text"""
+    {"wv": [atoms of .value], "ww": [0/1 of .weight]} (value AND weight, entry by entry).  Anything else (n-d tensors, weighted values
+    with another kind of weight) is a dict WITHOUT "wv" — `XBad` for the 1-d Coq instances — that carries the nested exact value for the
+    n-d instance (State/StateNdExec.v): {"shape", "nt"} for a tensor, {"shape", "weighted", "weight", "nv", "nw"} for a WeightedTensor"""
     if t is None:
         return None
     if hasattr(t, "weighted_value"):
         import torch
         v, w = t.value, t.weight
         if w is None or v.ndim != 1 or w.dtype != torch.bool or w.shape != v.shape:
-            return {"shape": list(v.shape), "weighted": True, "weight": None if w is None else str(w.dtype)}
+            return {"shape": list(v.shape), "weighted": True, "weight": None if w is None else str(w.dtype),
+                    "nv": nest_json(v.tolist()), "nw": None if w is None else nest_json(w.tolist())}
         return {"wv": [atom_json(x) for x in v.tolist()], "ww": [int(bool(x)) for x in w.tolist()]}
     if t.ndim == 0:
         return atom_json(t.item())
     if t.ndim == 1:
         return [atom_json(x) for x in t.tolist()]
-    return {"shape": list(t.shape)}
+    return {"shape": list(t.shape), "nt": nest_json(t.tolist())}
+
+
+def val_coq_n(v):
+    """Coq literal (`nval` of State/StateNdExec.v) of a JSON value in any of the forms of `val_json`, or a nested list of atoms"""
+    if isinstance(v, dict):
+        if "wv" in v:
+            return f"(NW {tens_coq(v['wv'])} (Some {tens_coq(v['ww'])}))"
+        if "nt" in v:
+            return f"(NP {tens_coq(v['nt'])})"
+        if "nv" in v:
+            return f"(NW {tens_coq(v['nv'])} {'None' if v.get('nw') is None else '(Some ' + tens_coq(v['nw']) + ')'})"
+        return "NBad"
+    return f"(NP {tens_coq(v)})"
 
 
 def is_weighted_json(v):
@@ -91,6 +107,8 @@ def is_weighted_json(v):
 def val_coq(v, W=False):
     """Coq literal of a JSON value: an `xval` (StateExec.v), or with W a `wval` (StateWExec.v: plain values wrapped in WPlain,
     weighted values as `WWt values weights`)"""
+    if W == "n":
+        return val_coq_n(v)
     if W:
         if is_weighted_json(v):
             return ("(WWt [" + "; ".join(atom_coq(a) for a in v["wv"]) + "] ["
@@ -98,6 +116,8 @@ def val_coq(v, W=False):
         return f"(WPlain {val_coq(v)})"
     if isinstance(v, dict):
         return "XBad"
+    if isinstance(v, list) and any(isinstance(a, list) and not is_off(a) for a in v):
+        return "XBad"                    # a nested (n-d) value: outside the 1-d vocabulary
     if isinstance(v, list) and not (len(v) == 2 and v[0] == "off"):
         return "(XP [" + "; ".join(atom_coq(a) for a in v) + "])"
     return f"(XS {atom_coq(v)})"
@@ -131,27 +151,50 @@ class ToyGraph:
       ["wsum", c0, [c]]        c0 + c * W.weighted_value.sum()                 aggregate that uses the weight
       ["wcnt", c0, [c]]        c0 + c * W.weight.sum()                         aggregate of the weight"""
 
-    W_FUNS = ("wthr", "wmap", "wval", "wwgt", "wsum", "wcnt")
+    W_FUNS = ("wthr", "wmap", "wval", "wwgt", "wsum", "wcnt", "wadd")
 
-    def __init__(self, nodes, n_ind, dtype="int64"):
+    def __init__(self, nodes, n_ind, dtype="int64", trail=()):
         self.nodes = nodes
         self.n_ind = n_ind
         self.dtype = dtype
+        # trailing shape of every per-individual variable: () -> 1-d values (Coq: StateExec.v / StateWExec.v); (v,), (v, f), (1,) ->
+        # values of shape (n_ind, v), (n_ind, v, f), (n_ind, 1) (Coq: the n-d instance State/StateNdExec.v)
+        self.trail = tuple(trail)
         self.by_name = {nd["name"]: nd for nd in nodes}
         self.dag = None
 
     def to_json(self):
-        return dict(nodes=self.nodes, n_ind=self.n_ind, dtype=self.dtype)
+        d = dict(nodes=self.nodes, n_ind=self.n_ind, dtype=self.dtype)
+        if self.trail:
+            d["trail"] = list(self.trail)
+        if getattr(self, "force_nd", False):
+            d["force_nd"] = True
+        return d
 
     @staticmethod
     def from_json(d):
-        return ToyGraph(d["nodes"], d["n_ind"], d.get("dtype", "int64"))
+        G = ToyGraph(d["nodes"], d["n_ind"], d.get("dtype", "int64"), d.get("trail", ()))
+        if d.get("force_nd"):
+            G.force_nd = True
+        return G
+
+    @property
+    def nd(self):
+        """is the graph compared through the n-d Coq instance (State/StateNdExec.v): values with a trailing shape, the two-parent
+        weighted function `wadd`, or a 1-d graph sent there on purpose (`force_nd`: the vocabulary for which F_mix is PROVED there)"""
+        return bool(self.trail) or getattr(self, "force_nd", False) or any(
+            nd["kind"] == "linked" and nd["fun"][0] == "wadd" for nd in self.nodes)
+
+    @property
+    def inst(self):
+        """selector of the Coq instance for `val_coq` / `out_coq`: "n" (nval), True (wval), False (xval)"""
+        return "n" if self.nd else self.weighted
 
     def tensor(self, v, dtype=None):
         import torch
         dt = {"int64": torch.int64, "float64": torch.float64, "float32": torch.float32}[dtype or self.dtype]
         if isinstance(v, list):
-            return torch.tensor([atom_py(a) for a in v], dtype=dt)
+            return torch.tensor(nest_py(v), dtype=dt)
         return torch.tensor(atom_py(v), dtype=dt)
 
     def axis(self, name):
@@ -169,7 +212,7 @@ class ToyGraph:
 
     def weighted_node(self, name):
         nd = self.by_name[name]
-        return nd["kind"] == "linked" and nd["fun"][0] in ("wthr", "wmap")
+        return nd["kind"] == "linked" and nd["fun"][0] in ("wthr", "wmap", "wadd")
 
     def build(self):
         """Real DAG; node order = the implementation's topological order."""
@@ -185,7 +228,9 @@ class ToyGraph:
             else:
                 kind, c0, cs = nd["fun"][:3]
                 ps = nd["parents"]
-                if kind in self.W_FUNS:
+                if kind == "wadd":
+                    body = (f"WeightedTensor(({cs[0]}) * {ps[0]}.value + ({cs[1]}) * {ps[1]}.value, {ps[0]}.weight * {ps[1]}.weight)")
+                elif kind in self.W_FUNS:
                     p, c = ps[0], cs[0]
                     body = {"wthr": f"WeightedTensor({c0} + ({c}) * {p}, weight=({p} >= {nd['fun'][3] if kind == 'wthr' else 0}))",
                             "wmap": f"WeightedTensor({c0} + ({c}) * {p}.value, {p}.weight)",
@@ -219,6 +264,8 @@ class ToyGraph:
     def coq(self):
         """`list nspec` literal (`list wspec` of State/StateWExec.v when the graph uses the weighted vocabulary);
         ancestors / children are the ones the implementation computed."""
+        if self.nd:
+            return self.coq_nd()
         out = []
         W = self.weighted
         for name in self.order:
@@ -251,7 +298,38 @@ class ToyGraph:
         return "[" + ";\n    ".join(out) + "]"
 
 
-def add_weighted_nodes(rng, G_nodes, n_ind, dtype, names_left):
+    def coq_nd(self):
+        """`list dspec` literal of State/StateNdExec.v (every function of the toy vocabulary, on values of any trailing shape)"""
+        out = []
+        lst = lambda l: "[" + "; ".join(str(x) for x in l) + "]"
+        for name in self.order:
+            nd = self.by_name[name]
+            linked = nd["kind"] == "linked"
+            hyper = f"(Some {val_coq_n(nd['value'])})" if nd["kind"] == "hyper" else "None"
+            if linked:
+                kind, c0, cs = nd["fun"][:3]
+                ps = [self.index[p] for p in nd["parents"]]
+                zl = "[" + "; ".join(f"({c})%Z" for c in cs) + "]"
+                if kind == "wadd":
+                    fun = f"(DWAdd ({cs[0]})%Z ({cs[1]})%Z)"
+                elif kind in self.W_FUNS:
+                    con = {"wthr": "DThr", "wmap": "DMap", "wval": "DVal", "wwgt": "DWgt", "wsum": "DSumW", "wcnt": "DCnt"}[kind]
+                    fun = f"({con} ({c0})%Z ({cs[0]})%Z" + (f" ({nd['fun'][3]})%Z)" if kind == "wthr" else ")")
+                else:
+                    fun = {"affine": f"(DAffine ({c0})%Z {zl})", "sum": f"(DSum ({c0})%Z {zl})", "log2": "DLog2"}[kind]
+            else:
+                ps, fun = [], "DLog2"
+            impl_parents = sorted(self.index[p] for p in self.dag.direct_ancestors[name])
+            if sorted(ps) != impl_parents:
+                raise AssertionError(f"parents of {name}: harness {ps} vs implementation {impl_parents}")
+            anc = [self.index[a] for a in self.dag.sorted_ancestors[name]]
+            desc = [self.index[c] for c in self.dag.sorted_children[name]]
+            out.append(f"mkD {'true' if linked else 'false'} {'true' if nd['kind'] in ('pop', 'ind') else 'false'} {hyper} "
+                       f"{'true' if self.axis(name) else 'false'} {lst(ps)} {lst(anc)} {lst(desc)} {fun}")
+        return "[" + ";\n    ".join(out) + "]"
+
+
+def add_weighted_nodes(rng, G_nodes, n_ind, dtype, names_left, wadd=False):
     """Append nodes of the weighted vocabulary to a generated node list: 1-2 `wthr` nodes on parents carrying the individual axis
     (threshold inside the range of the assigned values, so that proposals flip weights), each followed by 1-3 consumers
     (`wmap` -> its own consumers, `wval`, `wwgt`, `wsum`, `wcnt`), sometimes an affine / aggregating node on top of plain consumers."""
@@ -278,14 +356,20 @@ def add_weighted_nodes(rng, G_nodes, n_ind, dtype, names_left):
                 consumers(n, depth + 1)
             else:
                 plain_out.append((n, kind in ("wval", "wwgt")))
-    for _ in range(rng.choice([1, 1, 2])):
+    made = []
+    for _ in range(2 if wadd else rng.choice([1, 1, 2])):
         if len(names_left) < 2:
             break
         inds = [nd["name"] for nd in G_nodes if nd["kind"] == "ind"]
         x = rng.choice(inds) if (inds and rng.random() < 0.6) else rng.choice(axis)
         w = new(dict(name=names_left.pop(), kind="linked", parents=[x],
                      fun=["wthr", rng.randint(-3, 3), [rng.choice(coefs)], rng.randint(-4, 4)]))
+        made.append(w)
         consumers(w, 0)
+    if wadd and len(made) == 2 and len(names_left) >= 2:
+        # the two-parent function of WEIGHTED parents: WeightedTensor(c1*A.value + c2*B.value, A.weight * B.weight)
+        w = new(dict(name=names_left.pop(), kind="linked", parents=list(made), fun=["wadd", 0, [rng.choice(coefs), rng.choice(coefs)]]))
+        consumers(w, 1)
     if plain_out and names_left and rng.random() < 0.5:
         ps = [n for n, _ in rng.sample(plain_out, min(len(plain_out), rng.randint(1, 2)))]
         new(dict(name=names_left.pop(), kind="linked", parents=ps,
@@ -293,7 +377,7 @@ def add_weighted_nodes(rng, G_nodes, n_ind, dtype, names_left):
     return True
 
 
-def gen_graph(rng, n_nodes=None, n_ind=None, dtype=None, with_log=False, weighted=False):
+def gen_graph(rng, n_nodes=None, n_ind=None, dtype=None, with_log=False, weighted=False, wadd=False):
     """Random toy DAG: 2-9 nodes; hyper-parameters, population scalars, per-individual vectors, affine / aggregating
     (/ log2) derived nodes with distinct non-zero coefficients; several roots, late roots (random names decide the
     topological order), diamonds (parents drawn among all earlier nodes)."""
@@ -346,8 +430,21 @@ def gen_graph(rng, n_nodes=None, n_ind=None, dtype=None, with_log=False, weighte
     if weighted:
         left = [n for n in NAME_POOL if n not in names]
         rng.shuffle(left)
-        add_weighted_nodes(rng, nodes, n_ind, dtype, left)
+        add_weighted_nodes(rng, nodes, n_ind, dtype, left, wadd=wadd)
     return ToyGraph(nodes, n_ind, dtype)
+
+
+ND_TRAILS = [(2,), (3,), (1,), (2, 2), (2,), ()]
+
+
+def gen_graph_nd(rng, weighted=False):
+    """a toy graph compared through the n-d Coq instance: the per-individual variables have a trailing shape (n, 2), (n, 3), (n, 1),
+    (n, 2, 2) — or none: a 1-d graph sent to that instance; weighted graphs get the two-parent `wadd` node"""
+    G = gen_graph(rng, weighted=weighted, wadd=weighted and rng.random() < 0.7)
+    G.trail = rng.choice(ND_TRAILS)
+    if not G.trail:
+        G.force_nd = True
+    return G
 
 
 DIAMOND = ToyGraph([
@@ -627,6 +724,26 @@ def op_extra(op):
     return {}
 
 
+def op_rb(op):
+    """`right_broadcasting` of a `["revmask", k, mask, {"rb": bool}]` operation (default True, the default of State.revert)"""
+    return bool(op[3].get("rb", True)) if len(op) > 3 and isinstance(op[3], dict) else True
+
+
+def mask_fits(old, cur, mask, rb):
+    """the contract of `revert(subset, right_broadcasting=rb)` on one doubly cached value, as the n-d Coq instance decides it
+    (`nselect ... <> None`): same kind of value (plain / weighted / weighted without weight), same shapes, at least one axis, and exactly
+    one mask entry per index of the axis the mask is aligned on (first axis: right-broadcasting; last axis otherwise)"""
+    wo, wc = hasattr(old, "weighted_value"), hasattr(cur, "weighted_value")
+    if wo != wc:
+        return False
+    if wo and ((old.weight is None) != (cur.weight is None)):
+        return False
+    so, sc = tuple(old.shape), tuple(cur.shape)
+    if so != sc or not so:
+        return False
+    return so[0 if rb else -1] == len(mask)
+
+
 class BadHandle(Exception):
     """the harness's handle names no state (model: Err Crash)"""
 
@@ -724,6 +841,10 @@ class Session:
         if kind == "revmask":
             if st._last_fork is None:
                 return True
+            if G.nd:
+                rb = op_rb(op)
+                return all(G.axis(c) and mask_fits(old, st._values[c], op[2], rb)
+                           for c, old in st._last_fork.items() if old is not None and st._values[c] is not None)
             return all(G.axis(c) for c, old in st._last_fork.items() if old is not None and st._values[c] is not None)
         return True
 
@@ -762,7 +883,10 @@ class Session:
                 st.revert()
                 return ("done",)
             if kind == "revmask":
-                st.revert(torch.tensor(op[2], dtype=torch.bool))
+                if len(op) > 3:
+                    st.revert(torch.tensor(op[2], dtype=torch.bool), right_broadcasting=op_rb(op))
+                else:
+                    st.revert(torch.tensor(op[2], dtype=torch.bool))
                 return ("done",)
             if kind == "clone":
                 self.states.append(st.clone(disable_auto_fork=bool(op[2]), keep_last_fork=bool(op[3])))
@@ -1052,7 +1176,7 @@ class Session:
     # -- Coq literal of the recorded history
     def op_coq(self, op):
         G = self.G
-        W = G.weighted
+        W = G.inst
         val_coq = lambda v: globals()["val_coq"](v, W)
         kind, k = op[0], op[1]
         b = lambda x: "true" if x else "false"
@@ -1067,6 +1191,8 @@ class Session:
         if kind == "revert":
             return f"Revert {k}"
         if kind == "revmask":
+            if W == "n":
+                return f"RevertMask {k} {nmask_coq(op[2], op_rb(op))}"
             return f"RevertMask {k} [{'; '.join(b(x) for x in op[2])}]"
         if kind == "clone":
             return f"Clone {k} {b(op[2])} {b(op[3])}"
@@ -1082,28 +1208,31 @@ class Session:
         """plain histories only (no scoped block, no look): the case of `StateExec.check_case_with` (of
         `StateWExec.check_wcase_with` when the graph uses the weighted vocabulary)"""
         assert not any(op[0] in ("scoped", "look") for op, _, _ in self.records)
-        W = self.G.weighted
+        W = self.G.inst
         h = ";\n    ".join(f"({self.op_coq(op)}, {out_coq(out, W)}, {'true' if ok else 'false'})" for op, out, ok in self.records)
         return f"({self.G.coq()},\n   [{h}])"
 
     def sop_coq(self, op):
         if op[0] == "scoped":
-            return f"SScoped {op[1]} {mode_coq(op[2])} (blk [{'; '.join(self.sop_coq(o) for o in op[3])}])"
+            blk = {"n": "nblk", True: "wblk", False: "blk"}[self.G.inst]
+            return f"SScoped {op[1]} {mode_coq(op[2])} ({blk} [{'; '.join(self.sop_coq(o) for o in op[3])}])"
         if op[0] == "look":
             return f"SLook {op[1]}"
         return f"SPlain ({self.op_coq(op)})"
 
     def obs_coq(self, obs):
+        W = self.G.inst
+        con = ("XOut", "XSeen", "XBad") if W is False else ("GOut", "GSeen", "GBadH")      # StateScopedExec.xobs / StateScopedGExec.gobs
         if obs[0] == "out":
-            return f"XOut {out_coq(obs[2])}"
+            return f"{con[0]} {out_coq(obs[2], W)}"
         if obs[0] == "bad":
-            return f"XBad {obs[1]}"
+            return f"{con[2]} {obs[1]}"
         _, k, mode, fork = obs
         if fork is None:
             fk = "None"
         else:
-            fk = "(Some [" + "; ".join(f"({self.G.ix(n)}, {'None' if v is None else '(Some ' + val_coq(v) + ')'})" for n, v in fork) + "])"
-        return f"XSeen {k} {mode_coq(mode)} {fk}"
+            fk = "(Some [" + "; ".join(f"({self.G.ix(n)}, {'None' if v is None else '(Some ' + val_coq(v, W) + ')'})" for n, v in fork) + "])"
+        return f"{con[1]} {k} {mode_coq(mode)} {fk}"
 
     def coq_scase(self):
         """the case of `StateScopedExec.check_scase_with`: graph, history with scoped blocks, one entry per primitive event"""
@@ -1152,7 +1281,9 @@ def rand_value(rng, G, name, small=False):
             return rng.choice(["inf", "-inf", "inf"])
         return rng.randint(lo, hi)
     if G.by_name.get(name, {}).get("kind") == "ind":
-        return [one() for _ in range(G.n_ind)]
+        def nest(shape):
+            return one() if not shape else [nest(shape[1:]) for _ in range(shape[0])]
+        return nest((G.n_ind,) + tuple(getattr(G, "trail", ())))
     return one() if (nf and rng.random() < 0.3) else rng.randint(lo, hi)
 
 
@@ -1171,6 +1302,24 @@ def gen_history(rng, G, malformed=False, length=None, max_states=3, fx=False, sc
 
     def pick_state():
         return rng.randrange(len(s.states))
+
+    def revmask(k):
+        """a per-individual revert.  Graphs of the n-d instance: 30% with `right_broadcasting=False` and a mask over the LAST axis; a call
+        outside the exact-fit contract (e.g. the pending fork is that of a population scalar: torch would change the shape of the value) is
+        replaced by a full revert — inside histories the n-d instance models the contract only, the shape-changing broadcasts are
+        compared by the directed revert calls (`directed_select`)"""
+        op = ["revmask", k, [rng.random() < 0.5 for _ in range(G.n_ind)]]
+        if G.nd:
+            c = rng.random()
+            if c < 0.3:
+                last = G.trail[-1] if G.trail else G.n_ind
+                op = ["revmask", k, [rng.random() < 0.5 for _ in range(last)], {"rb": False}]
+            elif c < 0.5:
+                op.append({"rb": True})
+            if k < len(s.states) and not s.op_ok(op):
+                s.apply(["revert", k])
+                return
+        s.apply(op)
 
     def fork_pending(k):
         return s.states[k]._last_fork is not None
@@ -1264,7 +1413,7 @@ def gen_history(rng, G, malformed=False, length=None, max_states=3, fx=False, sc
         if d < 0.5 or (d < 0.6 and not fork_pending(k)):
             s.apply(["revert", k])
         elif d < 0.8 and ind and fork_pending(k):
-            s.apply(["revmask", k, [rng.random() < 0.5 for _ in range(G.n_ind)]])
+            revmask(k)
         for _ in range(rng.randint(1, 2)):
             s.apply(["get", k, rng.choice(names)])
 
@@ -1359,7 +1508,7 @@ def gen_history(rng, G, malformed=False, length=None, max_states=3, fx=False, sc
             elif c == 6:
                 s.apply(["isset", k, UNKNOWN])
             elif c == 7 and sett:
-                s.apply(["revmask", k, [rng.random() < 0.5 for _ in range(G.n_ind)]])
+                revmask(k)
             continue
         if r < 0.30:
             s.apply(["get", k, rng.choice(names)])
@@ -1395,7 +1544,7 @@ def gen_history(rng, G, malformed=False, length=None, max_states=3, fx=False, sc
                 if d < 0.35:
                     s.apply(["revert", k])
                 elif d < 0.75 and ind:
-                    s.apply(["revmask", k, [rng.random() < 0.5 for _ in range(G.n_ind)]])
+                    revmask(k)
         elif r < 0.58 and sett:
             n = rng.choice(sett)
             s.apply(["set", k, n, None if rng.random() < 0.06 else rand_value(rng, G, n)])
@@ -1409,7 +1558,7 @@ def gen_history(rng, G, malformed=False, length=None, max_states=3, fx=False, sc
             s.apply(["revert", k]) if (fork_pending(k) or rng.random() < 0.1) else s.apply(["get", k, rng.choice(names)])
         elif r < 0.74:
             if fork_pending(k):
-                s.apply(["revmask", k, [rng.random() < 0.5 for _ in range(G.n_ind)]])
+                revmask(k)
             else:
                 s.apply(["isset", k, rng.choice(names)])
         elif r < 0.80:
@@ -1435,7 +1584,7 @@ def gen_history(rng, G, malformed=False, length=None, max_states=3, fx=False, sc
             for _ in range(rng.randint(0, 2)):
                 s.apply(["get", k, rng.choice(names)])
             if G.by_name[n]["kind"] == "ind" and rng.random() < 0.35:
-                s.apply(["revmask", k, [rng.random() < 0.5 for _ in range(G.n_ind)]])
+                revmask(k)
             else:
                 s.apply(["revert", k])
             for _ in range(rng.randint(1, 2)):
@@ -1498,3 +1647,262 @@ def shrink(G, ops, still_fails, max_rounds=6):
         if not changed:
             break
     return ops
+
+
+# ----------------------------------------------------------------------------- n-d values (State/StateNdExec.v)
+#
+# Values with a trailing shape: nested lists of exact atoms.  Coq: `tens` (T0 atom | TL rows), `nval` (NP | NW value weight | NBad).
+
+
+def is_off(a):
+    return isinstance(a, list) and len(a) == 2 and a[0] == "off"
+
+
+def nest_json(x):
+    """nested python list of numbers (tensor.tolist()) -> nested list of exact atoms"""
+    if isinstance(x, list):
+        return [nest_json(y) for y in x]
+    return atom_json(x)
+
+
+def nest_py(v):
+    if isinstance(v, list) and not is_off(v):
+        return [nest_py(y) for y in v]
+    return atom_py(v)
+
+
+def tens_coq(v):
+    if isinstance(v, list) and not is_off(v):
+        return "(TL [" + "; ".join(tens_coq(y) for y in v) + "])"
+    return f"(T0 {atom_coq(v)})"
+
+
+def nval_json(t):
+    """tensor -> {"t": nested}; WeightedTensor -> {"v": nested, "w": nested | None, "wdt": dtype of the weight}; None -> None"""
+    if t is None:
+        return None
+    if hasattr(t, "weighted_value"):
+        w = t.weight
+        return {"v": nest_json(t.value.tolist()), "w": None if w is None else nest_json(w.tolist()),
+                "wdt": None if w is None else str(w.dtype).replace("torch.", "")}
+    return {"t": nest_json(t.tolist())}
+
+
+def nval_coq(j):
+    if not isinstance(j, dict):
+        return "NBad"
+    if "t" in j:
+        return f"(NP {tens_coq(j['t'])})"
+    if "v" in j:
+        return f"(NW {tens_coq(j['v'])} {'None' if j.get('w') is None else '(Some ' + tens_coq(j['w']) + ')'})"
+    return "NBad"
+
+
+def nval_tensor(j, dtype="int64"):
+    """the real value described by {"t": ..} / {"v": .., "w": .., "wdt": ..}"""
+    import torch
+    from leaspy.utils.weighted_tensor import WeightedTensor
+    dt = {"int64": torch.int64, "float64": torch.float64, "float32": torch.float32, "bool": torch.bool}
+    if "t" in j:
+        return torch.tensor(nest_py(j["t"]), dtype=dt[dtype])
+    v = torch.tensor(nest_py(j["v"]), dtype=dt[dtype])
+    if j.get("w") is None:
+        return WeightedTensor(v)
+    return WeightedTensor(v, torch.tensor(nest_py(j["w"]), dtype=dt[j.get("wdt") or "bool"]))
+
+
+def nest_shape(v):
+    s = []
+    while isinstance(v, list) and not is_off(v):
+        s.append(len(v))
+        v = v[0] if v else None
+    return s
+
+
+def nmask_coq(mask, rb=True):
+    return f"({'true' if rb else 'false'}, [{'; '.join('true' if b else 'false' for b in mask)}])"
+
+
+def _rand_nest(rng, shape, lo, hi):
+    if not shape:
+        return rng.randint(lo, hi)
+    return [_rand_nest(rng, shape[1:], lo, hi) for _ in range(shape[0])]
+
+
+def nest_kind(j):
+    return "plain" if "t" in j else ("weighted:none" if j.get("w") is None else "weighted")
+
+
+def select_contract(old, cur, mask, rb):
+    """is the call inside the documented contract of `revert(subset)` — computed from the shapes alone: same shapes, at least one
+    axis, exactly one mask entry per index of the axis the mask is aligned on, the same kind of weight on both sides"""
+    so, sc = nest_shape(old.get("t", old.get("v"))), nest_shape(cur.get("t", cur.get("v")))
+    if so != sc or not so or nest_kind(old) != nest_kind(cur):
+        return False
+    return so[0 if rb else -1] == len(mask)
+
+
+def select_reference(old, cur, mask, rb):
+    """the documented result inside the contract, computed on nested lists: right-broadcasting -> row i from the forked side where
+    mask[i]; right_broadcasting=False -> entry i of every innermost vector"""
+    def sel(o, c, depth):
+        if depth == 0:
+            return [o[i] if mask[i] else c[i] for i in range(len(mask))]
+        return [sel(a, b, depth - 1) for a, b in zip(o, c)]
+    out = {}
+    for key in ("t", "v", "w"):
+        if old.get(key) is not None:
+            d = 0 if rb else len(nest_shape(old[key])) - 1
+            out[key] = sel(old[key], cur[key], d)
+        elif key in old:
+            out[key] = None
+    return out
+
+
+def select_cases(rng):
+    """Directed `revert(subset, right_broadcasting=rb)` calls on a value held on both sides: shapes (), (3,), (3,1), (3,2), (2,3,2), (1,2),
+    (2,2) x masks of length 1, 2, 3 (ALL masks) x both alignments x kinds of value (plain; boolean weights; NON-boolean weights;
+    weight=None; weighted on one side only, both ways; weight=None against weights) + the two sides with different shapes."""
+    import itertools
+    shapes = [[], [3], [3, 1], [3, 2], [2, 3, 2], [1, 2], [2, 2]]
+    kinds = [("plain", "plain"), ("wbool", "wbool"), ("wint", "wint"), ("wnone", "wnone"), ("plain", "wint"), ("wbool", "plain"),
+             ("wnone", "wint"), ("wbool", "wnone")]
+
+    def mk(kind, shape):
+        v = _rand_nest(rng, shape, -9, 9)
+        if kind == "plain":
+            return {"t": v}
+        if kind == "wnone":
+            return {"v": v, "w": None, "wdt": None}
+        if kind == "wbool":
+            return {"v": v, "w": _rand_nest(rng, shape, 0, 1), "wdt": "bool"}
+        return {"v": v, "w": _rand_nest(rng, shape, 0, 4), "wdt": "int64"}
+    cases = []
+    for shape in shapes:
+        for ko, kc in kinds:
+            old, cur = mk(ko, shape), mk(kc, shape)
+            for k in (1, 2, 3):
+                for mask in itertools.product([True, False], repeat=k):
+                    for rb in (True, False):
+                        cases.append(dict(old=old, cur=cur, mask=list(mask), rb=rb))
+    for so, sc in (([2, 2], [2]), ([3], [3, 1]), ([2, 3], [3, 2]), ([], [1]), ([2, 2], [2, 2, 1])):
+        for ko, kc in (("plain", "plain"), ("wbool", "wbool")):
+            for rb in (True, False):
+                cases.append(dict(old=mk(ko, so), cur=mk(kc, sc), mask=[True, False], rb=rb))
+    return cases
+
+
+SELECT_DAG = None
+
+
+def exec_select(case):
+    """run one case on a real State: x := old (forked), x := cur, revert(mask, right_broadcasting=rb); returns
+    (observed value of x | None when the call raised, exception class, is _last_fork None afterwards)"""
+    import torch
+    from leaspy.variables.dag import VariablesDAG
+    from leaspy.variables.specs import DataVariable, LinkedVariable
+    from leaspy.variables.state import State, StateForkType
+    global SELECT_DAG
+    if SELECT_DAG is None:
+        SELECT_DAG = VariablesDAG.from_dict({"x": DataVariable(), "y": LinkedVariable(lambda *, x: x)})
+    st = State(SELECT_DAG, auto_fork_type=StateForkType.REF)
+    st["x"] = nval_tensor(case["old"])
+    st["x"] = nval_tensor(case["cur"])
+    try:
+        st.revert(torch.tensor(case["mask"], dtype=torch.bool), right_broadcasting=bool(case["rb"]))
+    except Exception as e:  # noqa: the refusals are part of the model (AssertionError of revert, RuntimeError of torch)
+        return None, type(e).__name__, st._last_fork is None
+    return nval_json(st._values["x"]), None, st._last_fork is None
+
+
+SELECT_HEADER = ("From Coq Require Import ZArith List Bool.\nFrom Leaspy Require Import State.StateModel State.StateExec State.StateWExec "
+                 "State.StateNdExec.\nImport ListNotations.\nOpen Scope Z_scope.\nOpen Scope nat_scope.\n")
+SELECT_CASE_TYPE = "nmask * nval * nval * option nval * bool"
+SELECT_SIG = "partial-revert:nd-selection-differs-from-documented-rows"
+# finding: `_select` gives the rows of a side that has NO weight (plain tensor / WeightedTensor(weight=None)) the OTHER side's weight
+ONE_SIDED_SIG = "partial-revert:side-without-weight-takes-the-other-sides-weight"
+
+
+def one_sided_trace(case, observed):
+    """a call torch accepts in which one side has weights and the other has none, shapes and mask otherwise inside the contract: the entries
+    taken from the side WITHOUT weight (all of them valid there) whose weight in the result is 0 — they are masked by the weight of the
+    side they were NOT taken from.  Returns the list of such index paths (empty: nothing to report)."""
+    ko, kc = nest_kind(case["old"]), nest_kind(case["cur"])
+    if (ko == "weighted") == (kc == "weighted") or observed is None or observed.get("w") is None:
+        return []
+    so, sc = nest_shape(case["old"].get("t", case["old"].get("v"))), nest_shape(case["cur"].get("t", case["cur"].get("v")))
+    if so != sc or not so or so[0 if case["rb"] else -1] != len(case["mask"]):
+        return []
+    from_old_has_none = ko != "weighted"
+    out = []
+
+    def walk(w, path):
+        if isinstance(w, list):
+            for i, x in enumerate(w):
+                walk(x, path + [i])
+            return
+        pos = path[0] if case["rb"] else path[-1]
+        taken_from_old = bool(case["mask"][pos])
+        if taken_from_old == from_old_has_none and w == 0:
+            out.append(path)
+    walk(observed["w"], [])
+    return out
+
+
+def select_case_coq(case, observed):
+    obs = "None" if observed is None else f"(Some {nval_coq(observed)})"
+    return (f"({nmask_coq(case['mask'], case['rb'])}, {nval_coq(case['old'])}, {nval_coq(case['cur'])}, {obs}, "
+            f"{'true' if select_contract(case['old'], case['cur'], case['mask'], case['rb']) else 'false'})")
+
+
+def directed_select(run):
+    """the tie of `nselect_torch` / `nselect` (State/StateNdExec.v) with `State.revert` + `_select`, and the implementation-side oracle
+    for the calls inside the contract (rows / last-axis entries computed on nested lists)"""
+    cases = select_cases(run.rng("directed-select"))
+    coq, stats = [], {}
+    for c in cases:
+        observed, exc, fork_none = exec_select(c)
+        inside = select_contract(c["old"], c["cur"], c["mask"], c["rb"])
+        shape = nest_shape(c["old"].get("t", c["old"].get("v")))
+        key = (f"{'inside' if inside else 'outside'} the contract; {'refused: ' + exc if observed is None else 'accepted'}")
+        stats[key] = stats.get(key, 0) + 1
+        run.count("nd_select", f"shape {tuple(shape)}, right_broadcasting={c['rb']}: {key}")
+        run.case(("nd-select", json_key(c)), nontrivial=len(shape) >= 2 or nest_kind(c["old"]) != "plain")
+        coq.append(select_case_coq(c, observed))
+        masked = one_sided_trace(c, observed)
+        if masked:
+            run.count("nd_select", "one side without weight: valid entries masked by the other side's weight")
+            run.fail(ONE_SIDED_SIG, "revert(subset) on a value that is a WeightedTensor WITH weights on one side and has no weight on the other "
+                     "(plain tensor or WeightedTensor(weight=None): every entry valid): `_select` (state.py:52-53) gives the rows taken from the side "
+                     "without weight the weight of the OTHER side, so a reverted (or kept) row is not what it was: entries that were valid now have "
+                     "weight 0, `weighted_value` and every cached value derived from it differ from the from-scratch evaluation "
+                     "(Coq witness: C02_one_sided_weight_refuted)", dict(select=c),
+                     expected="the entries taken from the side without weight stay valid (weight 1 / True)",
+                     observed=dict(value=observed, entries_masked_by_the_other_sides_weight=masked[:6]))
+        if inside:
+            ref = select_reference(c["old"], c["cur"], c["mask"], c["rb"])
+            got = None if observed is None else {k: observed.get(k) for k in ref}
+            if got != ref or not fork_none:
+                run.fail(SELECT_SIG, "revert(subset, right_broadcasting) on a value with a trailing shape held on both sides: the value left in the "
+                         "state is not 'the forked row where the subset says revert, the current row elsewhere' (right-broadcasting) / 'entry i of every "
+                         "innermost vector from the forked side where subset[i]' (right_broadcasting=False), for the value or for the WEIGHT of a "
+                         "WeightedTensor; or the call was refused / left _last_fork in place", dict(select=c),
+                         expected=ref, observed=dict(value=observed, raised=exc, last_fork_cleared=fork_none))
+    bad = run.vm_bad_indices("nd_select", SELECT_HEADER, SELECT_CASE_TYPE, coq, "check_nselect", shard=400)
+    for i in (bad or [])[:3]:
+        c = cases[i]
+        observed, exc, _ = exec_select(c)
+        run.fail("model-vs-code:nselect", "State.revert(subset, right_broadcasting) and the Coq model of `_select` on n-d values (nselect_torch: "
+                 "broadcasting and refusals included; nselect: its restriction to the contract) disagree: the theorems on n-d values no longer "
+                 "speak about this code", dict(select=c), expected="nselect_torch / nselect (coq/tmp/cases_*_nd_select_*.v)",
+                 observed=dict(value=observed, raised=exc), kind="broken-correspondence")
+    run.extra["nd_select_cases"] = dict(n=len(cases), by_outcome=stats)
+    if not any(k.startswith("inside") and "accepted" in k for k in stats) or not any("refused: AssertionError" in k for k in stats) \
+            or not any("refused: RuntimeError" in k for k in stats) or not any(k.startswith("outside") and "accepted" in k for k in stats):
+        run.broken("generator:nd-select-shape", f"the directed revert calls no longer reach every outcome class: {stats}", kind="broken-correspondence")
+    return bad
+
+
+def json_key(o):
+    import json
+    return json.dumps(o, sort_keys=True, default=str)
